@@ -66,6 +66,10 @@ class Ctx:
                 real.append(v)
         os.makedirs(os.path.join(VERIF, 'reports'), exist_ok=True)
         os.makedirs(os.path.join(VERIF, 'evidence'), exist_ok=True)
+        if not os.environ.get('LM_NO_EVIDENCE'):
+            import glob
+            for old_rp in glob.glob(os.path.join(VERIF, 'reports', f'{self.prop}-*.json')):
+                os.remove(old_rp)
         for i, v in enumerate(real):
             rp = os.path.join('reports', f'{self.prop}-{i}.json')
             if not os.environ.get('LM_NO_EVIDENCE'):
